@@ -81,7 +81,7 @@ def nested_state(draw):
     if draw(st.integers(0, 7)) == 0:
         # the same licence twice (with and without extension): the tool refuses such a project; it must do so
         # the same way whatever order the directory is listed in
-        d = draw(st.sampled_from(["MIT", "ISC", "Zlib"]))
+        d = draw(st.sampled_from(["MIT", "ISC", "Zlib", "LicenseRef-a.b", "LicenseRef-x"]))
         files[f"LICENSES/{d}.txt"] = "text\n"
         files[f"LICENSES/{d}"] = "text\n"
     return {"kind": "nested", "files": files}
@@ -94,7 +94,7 @@ def case(draw):
         t = draw(nested_state())
     else:
         t = {"kind": "full", "state": draw(FP.project_state(compliant_bias=draw(st.booleans()), max_files=10, git=False, expr_depth=2))}
-    return {"tree": t, "rootname": draw(st.sampled_from(["proj", "proj", "proj", "subprojects", "LICENSES"])),
+    return {"tree": t, "rootname": draw(st.sampled_from(["proj", "proj", "proj", "subprojects", "LICENSES", "proj[1]", "a*b?"])),
             "perm_seeds": draw(st.lists(st.integers(0, 10**6), min_size=2, max_size=2, unique=True)),
             "hashseeds": draw(st.lists(st.integers(1, 4000), min_size=3, max_size=3, unique=True))}
 
